@@ -1,9 +1,12 @@
 #!/bin/sh
 # Build the framework from files on disk only (offline): regenerate Gen/* from /repo, build the
-# Lean library (model + proofs + property theorems) and the native model driver.
-set -e
+# native model driver and the Lean library (model + proofs + property theorems).  Each check
+# rebuilds its own import cone again (a no-op when nothing changed), so a failure of one module
+# here does not stop the others from being built and checked.
 HERE="$(cd "$(dirname "$0")" && pwd)"
 cd "$HERE"
-/venv/bin/python harness/extract.py
+/venv/bin/python harness/extract.py || exit 1
 cd lean
-lake build Mistletoe driver
+lake build driver || exit 1
+lake build Mistletoe || echo "setup: some library modules failed to build (the checks that need them will report it)"
+exit 0
